@@ -151,7 +151,17 @@ def checkValCore (op : String) (args res : List String) : Verdict :=
       match valOk r with
       | .ok _ =>
         let tag := s!"val/pow/{a.kind}/{n}/{r.kind}"
-        if n = 0 then .skip "x^0" else
+        if n = 0 then
+          (match a with
+           | .pinf | .minf => .skip "inf^0"
+           | _ =>
+             match r.toZ? with
+             | some t =>
+               (match Alg.cmpRat t.a 1 with
+                | some c => if c = 0 then .ok tag else .viol tag "x^0 must be 1 for every finite x, whatever its representation"
+                | none => .skip "cmp out of fuel")
+             | none => .viol tag "non-finite result of a finite operand")
+        else
         match a with
         | .pinf => (match r with | .pinf => .ok tag | _ => .viol tag "(+inf)^n must be +inf")
         | .minf => (match r with
